@@ -20,9 +20,9 @@ EXTENDS Monitor
 
 Trace == ndJsonDeserialize("trace.ndjson")
 
-VARIABLES l, dbs, mons, done
+VARIABLES l, dbs, mons, cmons, done
 
-vars == <<l, dbs, mons, done>>
+vars == <<l, dbs, mons, cmons, done>>
 
 \* ------------------------------------------------------------- decoding
 RowJ(t, jrow) == [c \in Cols(t) |->
@@ -117,6 +117,7 @@ CheckTxn(e, db) ==
 Init == /\ l = 1
         /\ dbs = [k \in {} |-> 0]
         /\ mons = [k \in {} |-> 0]
+        /\ cmons = [k \in {} |-> 0]
         /\ done = FALSE
 
 Ev == Trace[l]
@@ -125,6 +126,7 @@ DoReset ==
     /\ Ev.ev = "reset"
     /\ dbs' = Override(dbs, [k \in {Ev.db} |-> EmptyDB])
     /\ mons' = [k \in {} |-> 0]
+    /\ cmons' = [k \in {} |-> 0]
 
 DoLoad ==
     /\ Ev.ev = "load"
@@ -135,31 +137,67 @@ DoLoad ==
                   "reference index of the reloaded database differs from the one recomputed from the rows",
                   [extra |-> RefsJ(Ev.refs) \ RefIndex(post), missing |-> RefIndex(post) \ RefsJ(Ev.refs)])
            /\ dbs' = Override(dbs, [k \in {Ev.db} |-> post])
-    /\ UNCHANGED mons
+    /\ UNCHANGED <<mons, cmons>>
 
 DoTxn ==
     /\ Ev.ev = "txn"
     /\ CheckTxn(Ev, dbs[Ev.db])
     /\ CheckNotifs(Ev, dbs[Ev.db], DbJ(Ev.post), mons, l)
     /\ dbs' = [dbs EXCEPT ![Ev.db] = DbJ(Ev.post)]
-    /\ UNCHANGED mons
+    /\ UNCHANGED <<mons, cmons>>
 
 DoMonitor ==
     /\ Ev.ev = "monitor"
     /\ CheckInitial(Ev, dbs[Ev.db], l)
     /\ mons' = Override(mons, [k \in {Ev.mon} |-> Ev])
-    /\ UNCHANGED dbs
+    /\ UNCHANGED <<dbs, cmons>>
+
+\* ---- a real client (monitor-fed cache): property C01
+\* the tables and columns client Ev.cli monitors, over all its monitors
+DoCMonitor ==
+    /\ Ev.ev = "cmonitor"
+    /\ cmons' = Override(cmons, [k \in {Ev.cli} |->
+                    Override(IF Ev.cli \in DOMAIN cmons THEN cmons[Ev.cli] ELSE [t \in {} |-> 0], Ev.tables)])
+    /\ UNCHANGED <<dbs, mons>>
+
+\* what a cache fed by monitors over tables/columns mon must hold: for every
+\* monitored table exactly the rows of the database, with the database's value in
+\* every monitored column (C01 says nothing about the other columns); nothing
+\* for tables that are not monitored
+MonitoredPart(db, mon) ==
+    [t \in Tables |->
+        IF t \in DOMAIN mon
+        THEN [u \in DOMAIN db[t] |-> [c \in Cols(t) \cap SeqToSet(mon[t]) |-> db[t][u][c]]]
+        ELSE [u \in {} |-> 0]]
+
+DoCache ==
+    /\ Ev.ev = "cache"
+    /\ LET mon == IF Ev.cli \in DOMAIN cmons THEN cmons[Ev.cli] ELSE [t \in {} |-> 0]
+           want == MonitoredPart(dbs[Ev.db], mon)
+           got == MonitoredPart(DbJ(Ev.rows), [t \in Tables |-> IF t \in DOMAIN mon THEN mon[t] ELSE <<>>])
+       IN  Chk(got = want, "C01", "the client's cache is not the monitored part of the database",
+               [cli |-> Ev.cli, when |-> Ev.when, rows |-> DiffRows(got, want)])
+    /\ UNCHANGED <<dbs, mons, cmons>>
+
+\* the client after a forced schedule: still connected, no Monitor call failed, nothing hangs
+DoHealth ==
+    /\ Ev.ev = "health"
+    /\ Chk(Ev.connected /\ Len(Ev.monitorErrors) = 0, "C01",
+           "monitor set-up racing a notification ended with a cache inconsistency (Monitor failed or the client disconnected)",
+           [cli |-> Ev.cli, connected |-> Ev.connected, monitorErrors |-> Ev.monitorErrors])
+    /\ Chk(Len(Ev.stuck) = 0, "C18", "a call did not return", [cli |-> Ev.cli, stuck |-> Ev.stuck])
+    /\ UNCHANGED <<dbs, mons, cmons>>
 
 Next ==
     \/ /\ l <= Len(Trace)
-       /\ (DoReset \/ DoLoad \/ DoTxn \/ DoMonitor)
+       /\ (DoReset \/ DoLoad \/ DoTxn \/ DoMonitor \/ DoCMonitor \/ DoCache \/ DoHealth)
        /\ l' = l + 1
        /\ UNCHANGED done
     \/ /\ l = Len(Trace) + 1
        /\ ~done
        /\ PrintT(<<"TRACE-COMPLETE", Len(Trace)>>)
        /\ done' = TRUE
-       /\ UNCHANGED <<l, dbs, mons>>
+       /\ UNCHANGED <<l, dbs, mons, cmons>>
 
 Spec == Init /\ [][Next]_vars
 =============================================================================
